@@ -353,6 +353,9 @@ func (e *c15Env) nextOp(r *rand.Rand, names []string, cur c15Obs) c15Op {
 			if !honest || r.Intn(5) == 0 {
 				signer = user() // a stranger: accepted only under an unrestricted parent
 			}
+			if r.Intn(10) == 0 {
+				signer = 0 // the governance authority has no special right to bind
+			}
 			owner := signer
 			if r.Intn(3) == 0 {
 				owner = user()
@@ -413,13 +416,23 @@ func (e *c15Env) nextOp(r *rand.Rand, names []string, cur c15Obs) c15Op {
 			if !honest && r.Intn(3) != 0 {
 				signer = otherThan(signer)
 			}
-			if signer == 0 {
-				signer = user()
+			if r.Intn(7) == 0 {
+				signer = 0 // the governance authority may modify a name but not delete it
+				w15gov++
 			}
 			return c15Op{kind: "delete", signer: signer, name: c15Raw(r, n)}
 		}
 	}
 	return c15Op{kind: "root", signer: 0, name: names[0], owner: 1, restr: false}
+}
+
+var w15gov int64 // delete attempts signed by the governance authority
+
+// addr32N is a 32-byte account address (contract / group / derived addresses have this length).
+func addr32N(n int) sdk.AccAddress {
+	b := make([]byte, 32)
+	copy(b, fmt.Sprintf("verifaddr32_%09d_long_address", n))
+	return sdk.AccAddress(b)
 }
 
 func TestC15(t *testing.T) {
@@ -432,7 +445,9 @@ func TestC15(t *testing.T) {
 	if govAddr.String() != app.NameKeeper.GetAuthority() {
 		t.Fatalf("authority is %s, expected the gov module account", app.NameKeeper.GetAuthority())
 	}
-	env := &c15Env{app: app, addrs: []sdk.AccAddress{govAddr, addrN(1), addrN(2), addrN(3)}}
+	env := &c15Env{app: app, addrs: []sdk.AccAddress{govAddr, addrN(1), addrN(2), addrN(3), addr32N(4), addr32N(5)}}
+	// the governance module account must exist, else a delete signed by it fails only in PurgeAttribute
+	app.AccountKeeper.GetModuleAccount(baseCtx, govtypes.ModuleName)
 	for _, a := range env.addrs[1:] {
 		ensureAccount(app, baseCtx, a)
 	}
@@ -461,6 +476,10 @@ func TestC15(t *testing.T) {
 	kp := app.NameKeeper.GetParams(baseCtx)
 	defP := c15Params{kp.MinSegmentLength, kp.MaxSegmentLength, kp.MaxNameLevels}
 
+	var addrIDs []string
+	for i := range env.addrs {
+		addrIDs = append(addrIDs, fmt.Sprintf("%d%%N", i))
+	}
 	// ---------- 1. histories ----------
 	nHist := scale(160, 3000)
 	steps := scale(30, 45)
@@ -531,7 +550,16 @@ func TestC15(t *testing.T) {
 			} else {
 				op = env.nextOp(r, names, cur)
 			}
+			var prevOwner *nametypes.NameRecord
+			if op.kind == "modify" {
+				prevOwner = cur.recs[nametypes.NormalizeName(op.name)]
+			}
 			ok := env.exec(ctx, op)
+			if ok && prevOwner != nil {
+				if old := env.id(prevOwner.Address); old < len(env.addrs) && len(env.addrs[old]) != len(env.addrs[op.owner]) {
+					w.Count("modify_accepted_between_20_and_32_byte_owners")
+				}
+			}
 			cur = env.observe(t, ctx, uni)
 			stepTerms = append(stepTerms, "("+op.coq()+", "+coqBool(ok)+", "+cur.term+")")
 			d := desc{"op": op.kind, "signer": op.signer, "name": op.name, "owner": op.owner, "restricted": op.restr, "accepted": ok}
@@ -551,7 +579,7 @@ func TestC15(t *testing.T) {
 				w.Count("ops_" + op.kind + "_accepted")
 			}
 		}
-		term := "CHist " + p.coq() + " " + coqList(mapStr(uni, coqStr)) + " " + coqList([]string{"0%N", "1%N", "2%N", "3%N"}) + " " + o0 + " " + coqList(stepTerms)
+		term := "CHist " + p.coq() + " " + coqList(mapStr(uni, coqStr)) + " " + coqList(addrIDs) + " " + o0 + " " + coqList(stepTerms)
 		w.Add(term, desc{"kind": "history", "params": []uint32{p.min, p.max, p.levels}, "names": uni,
 			"collision_pairs": c15Collisions(uni), "steps": opDescs})
 		w.Count("histories")
@@ -559,6 +587,8 @@ func TestC15(t *testing.T) {
 			w.Nontrivial("h/" + term)
 		}
 	}
+	w.CountN("delete_attempts_signed_by_gov_authority", w15gov)
+	w.CountN("addresses_32_bytes", 2)
 	w.CountN("ops_total", total)
 	w.CountN("ops_accepted", accepted)
 	if total > 0 {
